@@ -194,12 +194,14 @@ def routerMon (cfg : Cfg) (op : List String) (exts : List (List String)) (obs : 
             if whichIds.any (· != m.tid) then
               [mkFail "C19:shard-lookup-wrong-id" s!"sharder asked about {whichIds} for a span of trace {m.tid}"]
             else []
-          lookup ++
+          if !lookup.isEmpty then lookup else
           (if st == "drop" then
             if sinks.isEmpty && err == "none" then []
             else [mkFail s!"C19:stress-drop-route:{sinkStr}:err={err}" s!"a span dropped by stress relief reached {sinkStr} (err={err})"]
           else if st == "keep" then
-            if whichIds.isEmpty then [mkFail "C19:shard-not-consulted" "kept span: owner never looked up"]
+            if sinks.isEmpty && err == "none" then
+              [mkFail "C19:span-vanished:st=keep" "a span kept by stress relief reached no sink and no error was returned"]
+            else if whichIds.isEmpty then [mkFail s!"C19:shard-not-consulted:{sinkStr}" "kept span: owner never looked up"]
             else if owner == cfg.self then
               if sinks == ["upcoll"] && err == "none" then []
               else [mkFail s!"C19:stress-keep-local-route:{sinkStr}:err={err}" s!"locally owned span kept by stress relief: {sinkStr} (err={err})"]
@@ -211,7 +213,9 @@ def routerMon (cfg : Cfg) (op : List String) (exts : List (List String)) (obs : 
                 else [mkFail s!"C19:stress-keep-remote-route:{sinkStr}:err={err}" s!"remote span kept by stress relief: {sinkStr} (err={err})"]
               | _ => [mkFail s!"C19:stress-keep-remote-route:{sinkStr}:err={err}" s!"remote span kept by stress relief: {sinkStr} (err={err})"]
           else
-            if whichIds.isEmpty then [mkFail s!"C19:shard-not-consulted:{sinkStr}" s!"span routed to {sinkStr} without looking up its owner"]
+            if sinks.isEmpty && err == "none" then
+              [mkFail s!"C19:span-vanished:st={st}" "a span on the normal path reached no sink and no error was returned"]
+            else if whichIds.isEmpty then [mkFail s!"C19:shard-not-consulted:{sinkStr}" s!"span routed to {sinkStr} without looking up its owner"]
             else if owner != cfg.self then
               match calls with
               | [c] =>
